@@ -117,7 +117,7 @@ fn history_ops_unnumbered(id: &str) -> Vec<crate::history::Op> {
 /// A panic that escapes every per-case guard (while building, hashing or comparing values of the
 /// universe) is reported as a violation with the panic message instead of killing the process.
 fn guarded(run: &Run, f: impl FnOnce()) {
-    if let Err(p) = crate::report::quiet_catch(std::panic::AssertUnwindSafe(f)) {
+    if let Err(p) = crate::report::quiet_catch_unwatched(std::panic::AssertUnwindSafe(f)) {
         run.violation(
             &format!("a panic escaped while values of the universe were being built, hashed or compared (outside any guarded case): {p}"),
             serde_json::json!({"op": "escaped_panic", "message": p}),
